@@ -246,6 +246,7 @@ def _run_case(case, dev):
         steps = run.Counter.count
     run.Counter.budget = None
     stats["steps"] = steps
+    stats["bytes"] = nbytes
 
     # (a) bounded work
     if steps > bound:
@@ -372,8 +373,21 @@ def judge_bystander(case, sess, conn, spec, dev):
     return None
 
 
+def run_engine_case(case):
+    line = run.run_engine(case)
+    passes = int(line.split(":")[0])
+    n, ln = len(case["kinds"]), len(case["input"]) // 2
+    verdict = None
+    if passes > n * (ln + 1):
+        verdict = f"{passes} state runs at one machine level exceed |states|*(|input|+1) = {n * (ln + 1)}"
+    return {"line": line, "info": "-", "tagline": "-", "addrs": {}, "verdict": verdict,
+            "stats": {"kinds": ["E:" + line.split(":")[2]], "exc": [], "steps": run.Counter.count, "bytes": ln}}
+
+
 def _pool_run(case):
     try:
+        if case["mode"] == "e":
+            return run_engine_case(case)
         return run_case(case)
     except run.Hang:
         return {"line": "hang", "info": "-", "tagline": None, "addrs": {}, "stats": {"kinds": ["hang"], "exc": [], "steps": -1,
@@ -551,6 +565,30 @@ class C08(Suite):
                 c["bystander"] = self.bystander(rng, tg)
             yield c
 
+        # 5. the crumb mechanism itself: small machines on the real engine (exhaustive 2-state machines over
+        #    {symbol, any, no-input} in the thorough tier; random machines of up to 5 states)
+        syms = [0x41, "*", "-"]
+        if not quick:
+            import itertools
+            slots = [(s, y) for s in range(2) for y in syms]
+            for targets in itertools.product([None, 0, 1], repeat=len(slots)):
+                edges = [[s, y, t] for (s, y), t in zip(slots, targets) if t is not None]
+                for kinds in ("pp", "pc", "cp", "cc"):
+                    term = ["01", "10", "11", "00"][(len(edges) + kinds.count("c")) % 4]
+                    yield {"mode": "e", "kinds": kinds, "terminal": term, "edges": edges,
+                           "input": ["", "41", "4141", "4241"][len(edges) % 4]}
+        for _ in range(1500 if quick else 20000):
+            n = rng.randint(1, 5)
+            kinds = "".join(rng.choice("ppc") for _ in range(n))
+            term = "".join(rng.choice("01") for _ in range(n))
+            edges = []
+            for s_ in range(n):
+                for y in [0x41, 0x42, "*", "-"]:
+                    if rng.random() < 0.45:
+                        edges.append([s_, y, rng.randrange(n)])
+            inp = bytes(rng.choice([0x41, 0x42, 0x43]) for _ in range(rng.choice([0, 1, 2, 3, 4, 6]))).hex()
+            yield {"mode": "e", "kinds": kinds, "terminal": term, "edges": edges, "input": inp}
+
         # 4. pure noise
         for n in range(100 if quick else 3000):
             tg = lg.rand_tags(rng, max_tags=2)
@@ -605,6 +643,9 @@ class C08(Suite):
         return self._res(c)["line"]
 
     def model_line(self, c):
+        if c["mode"] == "e":
+            edges = ",".join(f"{s}.{sym}>{t}" for s, sym, t in c["edges"]) or "-"
+            return f"eng {c['kinds']} {c['terminal']} {edges} {c['input'] or '-'}"
         res = self._res(c)
         if res["tagline"] is None:
             return "c08-not-run"
@@ -615,21 +656,34 @@ class C08(Suite):
         return self._res(c)["verdict"]
 
     def known_key(self, c):
+        if c["mode"] == "e":
+            return self.model_line(c)
         return json.dumps({k: c[k] for k in ("mode", "budget", "tags", "chunks")}, sort_keys=True)
 
     def nontrivial(self, c, out):
+        if c["mode"] == "e":
+            # a machine with a cycle that consumes nothing, or that ran out of input / transitions
+            return self.model_line(c) if int(out.split(":")[0]) >= 2 else None
         kinds = self._res(c)["stats"]["kinds"]
         if any(k[0] in "OQI" for k in kinds):
             return hashlib.sha1(("".join(c["chunks"]) + c["mode"]).encode()).hexdigest()
         return None
 
     def classify(self, c, out):
+        if c["mode"] == "e":
+            return "e|" + out.split(":")[-1]
         st = self._res(c)["stats"]
         kinds = "".join(sorted({k[0] for k in st["kinds"]})) or "none"
         exc = "+".join(sorted(set(st["exc"])))[:40]
         return f"{c['mode']}|{c.get('mut', '?')}|{kinds}|{exc}"
 
     def shrink(self, c):
+        if c["mode"] == "e":
+            for i in range(len(c["edges"])):
+                yield dict(c, edges=c["edges"][:i] + c["edges"][i + 1:])
+            if len(c["input"]) >= 2:
+                yield dict(c, input=c["input"][:-2])
+            return
         base = {k: c[k] for k in ("mode", "budget", "tags", "chunks", "peer", "mut") if k in c}
         ch = c["chunks"]
         for i in range(len(ch)):
